@@ -134,12 +134,18 @@ func (s *Service) Process(ctx context.Context, request []byte) ([]byte, error) {
 	}
 	var result interface{}
 	func() {
+		// panic(nil) makes recover return nil (before go 1.21, and for every module whose
+		// go.mod names an older version): only this flag tells it from a normal return
+		panicking := true
 		defer func() {
 			if p := recover(); p != nil {
 				err = NewPanicError(p)
+			} else if panicking {
+				err = NewPanicError("panic called with nil argument")
 			}
 		}()
 		results, e := s.invokeManager.Handler().(NextInvokeHandler)(ctx, name, args)
+		panicking = false
 		if e != nil {
 			err = e
 			return
